@@ -1279,3 +1279,204 @@ Section AbstractLiveness.
     - apply kr_other; [exact Hnk|]. rewrite Hexp in Hrun'. exact Hrun'.
   Qed.
 End AbstractLiveness.
+
+(* ================================================================================
+   9. event-level theorems on real slot sets
+   ================================================================================ *)
+
+Lemma lpf_hdr_40 D : lpf_IPV6_HDR <= blen D -> 0 < blen D.
+Proof. unfold lpf_IPV6_HDR. zfold. lia. Qed.
+
+(* S + A'': any interleaving of pieces of D under key k with tame fragments of other keys and
+   other frames, any order, duplication, omission and timing, from any state in which at most one
+   slot is claimed for k: the run never panics, whatever is delivered under k is D, and (from a
+   state with no slot claimed for k) only at an arrival that completes a FRAG1 + full cover
+   received since the previous delivery *)
+Theorem ev_run_safe D tag src dst timeout evs ss st :
+  lpf_IPV6_HDR <= blen D -> let k := (src, dst, blen D, tag) in
+  kstate D k ss st -> Forall (ev_ok D k tag) evs ->
+  exists ss' rs st', ev_run timeout evs ss = Ok (ss', rs) /\ kstate D k ss' st' /\
+    Forall2 (fun e r => ev_is k e -> r = None \/ r = Some D) evs rs /\
+    (st = None -> delivered_only_when_complete D k [] evs rs).
+Proof.
+  intros Hsz k Hst Hok.
+  destruct (ev_run_refines D tag src dst timeout evs ss st Hsz Hst Hok) as (ss' & rs & st' & E & Hst' & Hrun).
+  exists ss', rs, st'. split; [exact E|]. split; [exact Hst'|].
+  pose proof (kstate_kabs_inv D k ss st Hst) as Hinv.
+  split; [exact (proj2 (kabs_run_exact_or_nothing D tag timeout k st evs rs st' Hrun Hok Hinv))|].
+  intros ->. apply (kabs_run_delivered_only_when_complete D tag timeout k None evs rs st' Hrun [] Hok (lpf_hdr_40 D Hsz) I I).
+Qed.
+
+(* never mixed: two datagrams under different keys (different sender, destination, size or tag),
+   their fragments interleaved arbitrarily with each other and with anything tame: each key
+   delivers its own datagram or nothing *)
+Theorem ev_run_two_datagrams_not_mixed D1 tag1 src1 dst1 D2 tag2 src2 dst2 timeout evs ss st1 st2 :
+  lpf_IPV6_HDR <= blen D1 -> lpf_IPV6_HDR <= blen D2 ->
+  let k1 := (src1, dst1, blen D1, tag1) in let k2 := (src2, dst2, blen D2, tag2) in
+  kstate D1 k1 ss st1 -> kstate D2 k2 ss st2 ->
+  Forall (ev_ok D1 k1 tag1) evs -> Forall (ev_ok D2 k2 tag2) evs ->
+  exists ss' rs, ev_run timeout evs ss = Ok (ss', rs) /\
+    Forall2 (fun e r => (ev_is k1 e -> r = None \/ r = Some D1) /\ (ev_is k2 e -> r = None \/ r = Some D2)) evs rs.
+Proof.
+  intros H1 H2 k1 k2 Hs1 Hs2 Ho1 Ho2.
+  destruct (ev_run_safe D1 tag1 src1 dst1 timeout evs ss st1 H1 Hs1 Ho1) as (ss' & rs & _ & E & _ & F1 & _).
+  destruct (ev_run_safe D2 tag2 src2 dst2 timeout evs ss st2 H2 Hs2 Ho2) as (ss'' & rs' & _ & E' & _ & F2 & _).
+  rewrite E in E'. injection E' as <- <-. exists ss', rs. split; [exact E|].
+  clear E. revert rs F1 F2. induction evs as [|e evs IH]; intros rs F1 F2; inversion F1; subst; [constructor|].
+  inversion F2; subst. inversion Ho1; subst. inversion Ho2; subst. constructor; [split; assumption | apply IH; assumption].
+Qed.
+
+(* an incomplete set of fragments delivers nothing *)
+Theorem ev_run_incomplete_delivers_nothing D tag src dst timeout evs ss :
+  lpf_IPV6_HDR <= blen D -> let k := (src, dst, blen D, tag) in
+  kstate D k ss None -> Forall (ev_ok D k tag) evs -> ~ k_complete D k evs ->
+  exists ss' rs st', ev_run timeout evs ss = Ok (ss', rs) /\ kstate D k ss' st' /\
+    Forall2 (fun e r => ev_is k e -> r = None) evs rs.
+Proof.
+  intros Hsz k Hst Hok Hinc.
+  destruct (ev_run_safe D tag src dst timeout evs ss None Hsz Hst Hok) as (ss' & rs & st' & E & Hst' & _ & Hd).
+  exists ss', rs, st'. split; [exact E|]. split; [exact Hst'|].
+  apply (dowc_incomplete D k evs rs [] (Hd eq_refl)). exact Hinc.
+Qed.
+
+(* timeout: a partial reassembly whose slot has expired when the next frame is polled contributes
+   nothing: unless the later fragments are complete by themselves, nothing is delivered *)
+Theorem ev_run_timeout_delivers_nothing D tag src dst timeout e rest ss u tot texp :
+  lpf_IPV6_HDR <= blen D -> let k := (src, dst, blen D, tag) in
+  kstate D k ss (Some (u, tot, texp)) -> Forall (ev_ok D k tag) (e :: rest) ->
+  texp < ev_time e -> ~ k_complete D k (e :: rest) ->
+  exists ss' rs st', ev_run timeout (e :: rest) ss = Ok (ss', rs) /\ kstate D k ss' st' /\
+    Forall2 (fun e r => ev_is k e -> r = None) (e :: rest) rs.
+Proof.
+  intros Hsz k Hst Hok Hexp Hinc.
+  destruct (ev_run_refines D tag src dst timeout (e :: rest) ss _ Hsz Hst Hok) as (ss' & rs & st' & E & Hst' & Hrun).
+  exists ss', rs, st'. split; [exact E|]. split; [exact Hst'|].
+  assert (Hx : kexpire (ev_time e) (Some (u, tot, texp)) = None).
+  { cbn [kexpire]. replace (texp <? ev_time e) with true by (symmetry; apply Z.ltb_lt; lia). reflexivity. }
+  pose proof (kabs_run_expired D timeout k e rest _ rs st' Hrun Hx) as Hrun0.
+  pose proof (kabs_run_delivered_only_when_complete D tag timeout k None _ rs st' Hrun0 [] Hok (lpf_hdr_40 D Hsz) I I) as Hd.
+  apply (dowc_incomplete D k _ rs [] Hd). exact Hinc.
+Qed.
+
+(* T: DELIVERY.  No slot is claimed for k; the first arrival is a fragment under k and finds a free
+   or expired slot; pre ++ [a] is the shortest prefix of the arrivals whose fragments under k
+   contain a FRAG1 and cover the datagram; these arrive no later than the expiry of the slot
+   (first arrival + reassembly timeout), in an order whose merged ranges fit the tracker; fragments
+   of other datagrams, other frames, duplicates are interleaved at will.  Then nothing is delivered
+   under k before a, exactly D is delivered at a, the slot is released, and afterwards D (nothing
+   else) is delivered again only by a further complete set of fragments. *)
+Theorem ev_run_delivers D tag src dst timeout pre a post ss :
+  lpf_IPV6_HDR <= blen D -> 0 <= timeout -> let k := (src, dst, blen D, tag) in
+  kstate D k ss None -> Forall (ev_ok D k tag) (pre ++ a :: post) ->
+  let e0 := hd a pre in
+  ev_is k e0 -> (exists j, (j < length ss)%nat /\ slot_avail (ev_time e0) (nth j ss lpf_slot_new)) ->
+  Forall (fun e => ev_time e <= ev_time e0 + timeout) (pre ++ [a]) ->
+  gaps_fit lpf_N D k asm_new (pre ++ [a]) ->
+  ev_is k a -> k_complete D k (pre ++ [a]) -> ~ k_complete D k pre ->
+  exists ss' rs_pre rs_post st',
+    ev_run timeout (pre ++ a :: post) ss = Ok (ss', rs_pre ++ Some D :: rs_post) /\
+    kstate D k ss' st' /\ length rs_pre = length pre /\
+    Forall2 (fun e r => ev_is k e -> r = None) pre rs_pre /\
+    Forall2 (fun e r => ev_is k e -> r = None \/ r = Some D) post rs_post /\
+    delivered_only_when_complete D k [] post rs_post.
+Proof.
+  intros Hsz Hto k Hst Hok e0 Hk0 Hav Htime Hgaps Hka Hcomp Hninc.
+  assert (Hsplit : exists rest, pre ++ a :: post = e0 :: rest).
+  { subst e0. destruct pre as [|p pre']; cbn [hd app]; eauto. }
+  destruct Hsplit as (rest & Esplit).
+  destruct e0 as [t0 src' dst' f0|t0 r0] eqn:Ee0; [|contradiction]. cbn [ev_is] in Hk0.
+  assert (Hsd : src' = src /\ dst' = dst) by (unfold frag_key, k in Hk0; injection Hk0; auto).
+  destruct Hsd as (-> & ->). cbn [ev_time] in Hav, Htime.
+  rewrite Esplit in Hok |- *.
+  destruct (ev_run_refines_claim D tag src dst timeout t0 f0 rest ss Hsz Hto Hst Hok Hk0 Hav)
+    as (ss' & rs & st' & E & Hst' & Hrun).
+  rewrite <- Esplit in Hrun, Hok.
+  assert (Hok1 : Forall (ev_ok D k tag) (pre ++ [a]) /\ Forall (ev_ok D k tag) post).
+  { apply Forall_app in Hok. destruct Hok as (H1 & H2). inversion H2; subst. split; [apply Forall_app; auto | assumption]. }
+  destruct Hok1 as (Hok1 & Hokp).
+  destruct (kabs_run_delivers D tag timeout (lpf_hdr_40 D Hsz) k pre a post rs st' (t0 + timeout) Hrun Hok1 Htime Hgaps Hka Hcomp Hninc)
+    as (rs_pre & rs_post & -> & Hl & HF & Hrunp).
+  exists ss', rs_pre, rs_post, st'. split; [exact E|]. split; [exact Hst'|]. split; [exact Hl|]. split; [exact HF|].
+  split; [exact (proj2 (kabs_run_exact_or_nothing D tag timeout k None post rs_post st' Hrunp Hokp I))|].
+  exact (kabs_run_delivered_only_when_complete D tag timeout k None post rs_post st' Hrunp [] Hokp (lpf_hdr_40 D Hsz) I I).
+Qed.
+
+(* ---------- which arrival orders fit the tracker ---------- *)
+
+(* (a) every fragment starts inside what has been received contiguously from offset 0 (in-order
+   arrival, with duplicates of earlier fragments anywhere): one range suffices, for any capacity *)
+Fixpoint prefix_order (D : list Z) (k : lpf_key) (e : Z) (evs : list lpl_ev) : Prop :=
+  match evs with
+  | [] => True
+  | ev :: r =>
+      match ev_kspan D k ev with
+      | Some (o, s) => 0 <= o <= e /\ 0 <= s /\ prefix_order D k (Z.max e (o + s)) r
+      | None => prefix_order D k e r
+      end
+  end.
+
+Definition prefix_asm (e : Z) : asm := if e =? 0 then [] else [mkContig 0 e].
+
+Lemma asm_add_unb_prefix e o s : 0 <= e -> 0 <= o <= e -> 0 <= s ->
+  asm_add_unb (prefix_asm e) o s = prefix_asm (Z.max e (o + s)).
+Proof.
+  intros He Ho Hs. unfold asm_add_unb. destruct (s =? 0) eqn:Es.
+  - apply Z.eqb_eq in Es. f_equal. lia.
+  - apply Z.eqb_neq in Es. unfold prefix_asm. destruct (e =? 0) eqn:Ee.
+    + apply Z.eqb_eq in Ee. subst e. assert (o = 0) by lia. subst o. cbn [asm_add_go].
+      replace (Z.max 0 (0 + s) =? 0) with false by (symmetry; apply Z.eqb_neq; lia). f_equal. f_equal. lia.
+    + apply Z.eqb_neq in Ee. cbn [asm_add_go]. unfold c_total. cbn [c_hole c_data].
+      replace (o <=? 0 + e) with true by (symmetry; apply Z.leb_le; lia).
+      replace (o <? 0) with false by (symmetry; apply Z.ltb_ge; lia).
+      cbn [asm_coalesce]. unfold asm_finish, c_total. cbn [c_hole c_data].
+      replace (Z.max e (o + s) =? 0) with false by (symmetry; apply Z.eqb_neq; lia).
+      destruct (o + s >? 0 + e) eqn:Eg; rewrite Z.gtb_ltb in Eg.
+      * apply Z.ltb_lt in Eg. f_equal. f_equal. lia.
+      * apply Z.ltb_ge in Eg. f_equal. f_equal. lia.
+Qed.
+
+Lemma gaps_fit_prefix_order n D k : 1 <= n -> forall evs e, 0 <= e -> prefix_order D k e evs ->
+  gaps_fit n D k (prefix_asm e) evs.
+Proof.
+  intros Hn. induction evs as [|ev evs IH]; intros e He Hp; cbn [gaps_fit prefix_order] in *; [exact I|].
+  destruct (ev_kspan D k ev) as [(o, s)|]; [|apply IH; assumption].
+  destruct Hp as (Ho & Hs & Hp). rewrite asm_add_unb_prefix by assumption. split; [|apply IH; [lia | exact Hp]].
+  unfold prefix_asm. destruct (_ =? 0); cbn [length]; lia.
+Qed.
+
+(* (b) no more fragments under k than the tracker has ranges: any order *)
+Lemma add_unb_length u o s : asm_wf u -> 0 <= o -> 0 <= s -> (length (asm_add_unb u o s) <= S (length u))%nat.
+Proof.
+  intros Hwf Ho Hs. unfold asm_add_unb. destruct (s =? 0) eqn:Es; [lia|]. apply Z.eqb_neq in Es.
+  destruct (add_go_room u o s) as (l' & E). rewrite E.
+  exact (proj1 (proj2 (add_go_spec false u true o s l' Hwf Ho ltac:(lia) E))).
+Qed.
+
+Fixpoint kcount (D : list Z) (k : lpf_key) (evs : list lpl_ev) : nat :=
+  match evs with
+  | [] => O
+  | e :: r => match ev_kspan D k e with Some _ => S (kcount D k r) | None => kcount D k r end
+  end.
+
+Lemma gaps_fit_few n D k tag : forall evs u, asm_wf u -> Forall (ev_ok D k tag) evs ->
+  Z.of_nat (length u + kcount D k evs) <= n -> gaps_fit n D k u evs.
+Proof.
+  induction evs as [|e evs IH]; intros u Hwf Hok Hc; cbn [gaps_fit kcount] in *; [exact I|].
+  inversion Hok as [|? ? He Hrest]; subst.
+  destruct (ev_kspan D k e) as [(o, s)|] eqn:Es; [|apply IH; assumption].
+  destruct (ev_ok_span D k tag e o s He Es) as (Ho & Hs & _).
+  pose proof (add_unb_length u o s Hwf Ho Hs) as Hl.
+  split; [lia|]. apply IH; [apply add_unb_spec; assumption | exact Hrest | lia].
+Qed.
+
+(* the hypothesis cannot be dropped: when the merged union needs more ranges than the tracker has,
+   the fragment's range is not recorded (its octets are written into the buffer but forgotten), so
+   the datagram cannot complete unless that fragment arrives again later
+   (C15_add_refused_only_when_too_many) *)
+Lemma kabs_add_overflow D tag f u tot texp : piece_ok D tag f -> kabs_inv D (Some (u, tot, texp)) ->
+  lpf_N < Z.of_nat (length (asm_add_unb u (fst (frag_span D f)) (snd (frag_span D f)))) ->
+  fst (asm_add lpf_N u (fst (frag_span D f)) (snd (frag_span D f))) = u.
+Proof.
+  intros Hp ((Hwf & Hlen) & _) Hbig. destruct (piece_span D tag f Hp) as (Ho & Hs & _).
+  apply asm_add_overflows; assumption.
+Qed.
